@@ -7,7 +7,7 @@ checks = []
 claimed = set()
 for p in sorted(glob.glob(os.path.join(V, "checks.d", "*.json"))):
     c = json.load(open(p))
-    if c.get("disabled"):
+    if c.get("disabled") or not c.get("ready"):
         continue
     m = c.get("manifest", {})
     pid = c["id"]
